@@ -409,19 +409,26 @@ const MISFIT: [(&str, &[&str]); 4] = [
     ("returns-named-no-such-member", &[" @returns nosuchmember: text"]),
 ];
 
-fn defect_case(cx: &mut CaseCtx, input: Input, cfg: &GenCfg) -> CaseResult {
-    let (lay_bytes, prog_bytes) = split_input(input.bytes());
-    let mut u = Unstructured::new(prog_bytes);
-    let malformed = pick(&mut u, 3) != 0;
-    let which = pick(&mut u, 10);
-    let (mut p, _labels) = gen_program(&mut u, cfg);
+/// A generated program with one defective doc comment planted on a victim element.
+pub struct Defect {
+    pub program: Program,
+    pub victim: String,
+    pub vkind: &'static str,
+    pub name: &'static str,
+    pub malformed: bool,
+}
+
+/// Builds the defect of one case; `Err(label)` when the chosen defect does not apply.
+pub fn make_defect(u: &mut Unstructured, cfg: &GenCfg) -> Result<Defect, &'static str> {
+    let malformed = pick(u, 3) != 0;
+    let which = pick(u, 10);
+    let (mut p, _labels) = gen_program(u, cfg);
     // choose the victim among the commentable elements
     let paths: Vec<(String, &'static str)> = commentables(&p).iter().map(|c| (c.0.clone(), c.3)).collect();
     if paths.is_empty() {
-        cx.label("no-commentable-element");
-        return Ok(());
+        return Err("no-commentable-element");
     }
-    let (victim, vkind) = paths[pick(&mut u, paths.len())].clone();
+    let (victim, vkind) = paths[pick(u, paths.len())].clone();
     let (name, lines): (&str, &[&str]) = if malformed {
         MALFORMED[which % MALFORMED.len()]
     } else {
@@ -429,7 +436,7 @@ fn defect_case(cx: &mut CaseCtx, input: Input, cfg: &GenCfg) -> CaseResult {
     };
     // misfit forms need the right kind of victim
     let vpre = victim_prelude(&mut p, &victim);
-    let Some(vpre) = vpre else { return Ok(()) };
+    let Some(vpre) = vpre else { return Err("no-prelude") };
     vpre.doc = lines.iter().map(|s| s.to_string()).collect();
     vpre.docm = None;
     let op_info = operation_info(&p, &victim);
@@ -445,9 +452,23 @@ fn defect_case(cx: &mut CaseCtx, input: Input, cfg: &GenCfg) -> CaseResult {
         }
     };
     if !applicable {
-        cx.label("defect-not-applicable-to-victim");
-        return Ok(());
+        return Err("defect-not-applicable-to-victim");
     }
+    Ok(Defect { program: p, victim, vkind, name, malformed })
+}
+
+fn defect_case(cx: &mut CaseCtx, input: Input, cfg: &GenCfg) -> CaseResult {
+    let (lay_bytes, prog_bytes) = split_input(input.bytes());
+    let mut u = Unstructured::new(prog_bytes);
+    let Defect { program: p, victim, vkind, name, malformed } = match make_defect(&mut u, cfg) {
+        Ok(d) => d,
+        Err(l) => {
+            if l != "no-prelude" {
+                cx.label(l);
+            }
+            return Ok(());
+        }
+    };
     cx.label(format!("defect:{name}"));
     cx.label(format!("victim:{vkind}"));
     cx.set_key(&p);
